@@ -98,7 +98,7 @@ def _d10(prop, sig, line, detail, profile):
         return False
     toks = line.split()
     op = toks[0]
-    if op not in ("rem", "rem_int"):
+    if op not in ("rem", "rem_int", "weu", "weui"):
         return False
     parts = sig.split(":")
     if len(parts) < 2:
@@ -109,16 +109,22 @@ def _d10(prop, sig, line, detail, profile):
     L = lay(toks[1])
     if not L.signed:
         return False
-    import rem as remmod
-    forms = remmod.FORMS[op]
-    idx = [i for i, fm in enumerate(forms) if fm[0] == name]
-    if not idx:
-        return False
     outs = toks[5:]
-    obs = outs[idx[0]]
+    if op in ("weu", "weui"):
+        # Wrapping::div_euclid / div_euclid_int forward to the wrapping forms
+        if name not in ("wrapping_div_euclid", "wrapping_div_euclid_int"):
+            return False
+        obs = outs[0]
+    else:
+        import rem as remmod
+        forms = remmod.FORMS[op]
+        idx = [i for i, fm in enumerate(forms) if fm[0] == name]
+        if not idx:
+            return False
+        obs = outs[idx[0]]
     A = L.val(int(toks[2], 16))
     B = L.val(int(toks[3], 16))
-    pred = _legacy_div_euclid(L, A, B, op == "rem_int", profile).get(name)
+    pred = _legacy_div_euclid(L, A, B, op in ("rem_int", "weui"), profile).get(name)
     if pred is None:
         return False
     if pred == "P":
